@@ -6,7 +6,7 @@ from .c02 import project
 
 PROP = 'C04'
 PREDICATE = 'C04'
-LEAN_TARGETS = ['LLTD.Props.C04', 'LLTD.Props.C04H']
+LEAN_TARGETS = ['LLTD.Props.C04', 'LLTD.Props.C04H', 'LLTD.Props.C04T']
 VARIANT = 'plain'
 RULE = ('attribute tuples dense on byte boundaries (every byte of flags/ifType/IPv4/speed/rate in {00,01,7F,80,FF}), MAC/BSSID from a '
         'near-collision pool, IPv6 random and patterned, names and SSIDs of every length 0..40, RSSI over [-128,127], wireless on/off, '
